@@ -475,7 +475,7 @@ class CallSim:
         reads = np.where(np.isnan(self.reads), None, self.reads).tolist() if len(self.reads) else []
         reads = [[[None if v is None else float(v) for v in row] for row in rd] for rd in reads]
         self.ctx.extra.append({"kind": kind, "genotype": x.tolist(), "k": k, "haplotypes": self.haps.tolist(), "reads": reads,
-                               "counts": self.counts.tolist(), "inbreeding": self.F, "frequencies": None if self.freqs is None else self.freqs.tolist(),
+                               "counts": self.counts.tolist(), "max_allele": int(self.reads.shape[2]), "inbreeding": self.F, "frequencies": None if self.freqs is None else self.freqs.tolist(),
                                "vector": vec.tolist()})
 
     def w_cached(self, *args, **kwargs):
